@@ -316,7 +316,7 @@ def classify(rec, clauses):
 def run(ctx):
     thorough = ctx.tier == "thorough"
     rng = random.Random(ctx.seed * 122949829 + 10)
-    k = 12 if thorough else 1
+    k = 12 if thorough else 2
     cases, cid = [], 0
     for ev, n in (("GetMetric", 900), ("Integrate", 250), ("Average", 250), ("Derivative", 250), ("Weighted", 350)):
         for _ in range(n * k):
